@@ -418,7 +418,7 @@ def generate(rng, tier):
     cases.append(conn_case(b"GET / HTTP/1.1\r\nA: \n\r\n", "corpus"))
     cases.append(conn_case(b"GET /h HTTP/1.1\r\nRange: bytes=0-18446744073709551615\r\n\r\n", "corpus"))
     cases.append(conn_case(b"GET /e.html HTTP/1.1\r\n\r\nGET /n.html HTTP/1.1\r\n\r\nGET /x.html HTTP/1.1\r\n\r\n", "corpus"))
-    # dc5aa45 (the documented vary callback sorted NaN weights with a comparator that is no total order: 40 members)
+    # 095abe3 (the documented vary callback sorted NaN weights with a comparator that is no total order: 40 members)
     cases.append(conn_case(b"GET /v HTTP/1.1\r\nHost: localhost\r\nAccept-Language: " + b", ".join(
         [b"en;q=0.1", b"sv;q=0.5", b"sv;q=0.9", b"fr;q=0.9", b"fr;q=0", b"en;q=nan", b"fr;q=nan", b"fr;q=0.9", b"sv;q=inf", b"fr;q=0.5"] * 4) + b"\r\n\r\n", "corpus"))
     cases += range_cases(b"bytes=0-18446744073709551615", 10, "corpus")
@@ -1001,7 +1001,7 @@ ASSUMPTIONS = [
     "second request that arrives in the same segment as the first head is not observed here",
     "weight_order_variant_refuted is about code that does NOT exist in kvarn (sort_weights: an insertion sort, what slice::sort_by is for up to 20 elements, with the comparator "
     "b.partial_cmp(a).unwrap()); it documents why no client-controlled float may be ordered that way. The consistency check inside core::slice::sort (the panic of the documented vary "
-    "callback, repaired by dc5aa45) is not modelled: that defect is covered by the live exploration only (kind conn-lang-weights and its corpus input)",
+    "callback, repaired by 095abe3) is not modelled: that defect is covered by the live exploration only (kind conn-lang-weights and its corpus input)",
     "stream.window: whether seeking a file to an offset in [2^31, 2^63) succeeds depends on the file system; those starts are out of domain "
     "(the model's seek fails exactly beyond i64::MAX); stream_body_never_panics: every read returns at most the 64 KiB buffer and file offsets stay "
     "below 2^63 (what the kernel guarantees)",
